@@ -2,7 +2,7 @@
    ExtrOcamlBasic and ExtrOcamlZBigInt (positive/Z/N -> zarith big integers), nothing of ours. *)
 Require Coq.extraction.Extraction.
 Require Import ExtrOcamlBasic ExtrOcamlZBigInt.
-From SedV Require Import Xnum Keep SrcAscii FilterOut FitModel Grid FTable TableProofs StreamM Frame Reader ConvolveM ConvDirM MonoM SedIOM Misc ApertureM.
+From SedV Require Import Xnum Keep SrcAscii FilterOut FitModel Grid FTable TableProofs StreamM Frame Reader ConvolveM ConvDirM MonoM SedIOM Misc ApertureM PlotM.
 Extraction Language OCaml.
 Extraction "sedmodel.ml" Keep.nkeep SrcAscii.from_ascii_m FilterOut.filter_output_m
   FitModel.get_av_m FitModel.interp_clamp_m FitModel.rank_m FitModel.fit2_all FitModel.fit2_det FitModel.fit3_m11 FitModel.fit3_all FitModel.fit2_pkg FitModel.fit3_pkg Grid.ndist Grid.gridlog_m
@@ -14,4 +14,5 @@ Extraction "sedmodel.ml" Keep.nkeep SrcAscii.from_ascii_m FilterOut.filter_outpu
   MonoM.mono_m MonoM.nearest_m
   SedIOM.sed_roundtrip SedIOM.cube_roundtrip
   Misc.convert
-  ApertureM.sed_interp_var_m.
+  ApertureM.sed_interp_var_m
+  PlotM.curve_list PlotM.curve_val.
